@@ -299,7 +299,8 @@ class MQWorld:
 
     def discarded(self, event):
         if event.event_type == "message_delivery":
-            self.log("disc", m=self.ordinal(event.context.get("message_id")), c=self.cidx(event.target))
+            self.log("disc", m=self.ordinal(event.context.get("message_id")), c=self.cidx(event.target),
+                     x=event.time.nanoseconds // self.tick_ns)     # x = the instant the event was stamped with
 
     # -- run ------------------------------------------------------------------------
     def run(self):
